@@ -83,8 +83,8 @@ class Panoptica_Aggregator:
             out_file_path += ".tsv"  # add extension
         output_file = Path(out_file_path)
 
-        out_buffer_file: Path = Path(out_file_path).parent.joinpath(
-            "panoptica_aggregator_tmp.tsv"
+        out_buffer_file: Path = output_file.parent.joinpath(
+            output_file.stem + "_panoptica_aggregator_tmp.tsv"
         )
         self.__output_buffer_file = out_buffer_file
 
